@@ -53,6 +53,7 @@ func NewServer(parse ParseFn, options ...OptionFn) (*Server, error) {
 // Server contains options for listening to an address.
 type Server struct {
 	closing         atomic.Bool
+	mu              sync.Mutex // guards the closing decision and the admission of commands
 	wg              sync.WaitGroup
 	logger          *slog.Logger
 	typeExtensions  []func(*pgtype.Map)
@@ -186,13 +187,20 @@ func (srv *Server) newTypeMap() *pgtype.Map {
 // Close gracefully closes the underlaying Postgres server.
 func (srv *Server) Close() error {
 	verifYield("close.enter")
-	if srv.closing.Load() {
-		return nil
-	}
 
-	verifYield("close.decided")
-	srv.closing.Store(true)
-	close(srv.closer)
+	// NOTE: the decision to close and the admission of new commands exclude
+	// each other. The closer channel is closed exactly once, also when close
+	// is called from multiple goroutines at once, and no command is admitted
+	// once the server is closing.
+	srv.mu.Lock()
+	if !srv.closing.Load() {
+		srv.closing.Store(true)
+		close(srv.closer)
+	}
+	srv.mu.Unlock()
+
+	// NOTE: every call waits for the commands which have been admitted, a
+	// repeated or concurrent call does not return before they have finished.
 	verifYield("close.signalled")
 	srv.wg.Wait()
 	verifYield("close.wait")
